@@ -17,6 +17,19 @@ def execute(case):
     g = gcmpy.EECC()
     for e in edges:
         g.add_edge(e)
+    pre = case.get("pre")
+    if pre:
+        # history: the same EECC object already produced a cover under another size bound; its edges are added again
+        try:
+            g.set_max_clique_size(pre["m0"])
+            if pre.get("only_list"):
+                g.limited_maximal_cliques()
+            else:
+                Oracle().run_seeded(pre.get("seed", 3), g.get_EECC)
+                for e in edges:
+                    g.add_edge(e)
+        except Exception:
+            pass
     g.set_max_clique_size(case["m0"])
     steps = []
     orig = getattr(g, "compute_scores", None)
@@ -90,6 +103,7 @@ def run(chk):
     thorough = chk.tier == "thorough"
     req = ["Start", "Pick", "Finish"]
     r = chk.mc("EECC", "MC_EECC_6.cfg" if thorough else "MC_EECC_5.cfg", required=req, timeout=7200)
+    chk.mc("EECC", "MC_EECC.cfg", required=req + ["CoverAgain"])       # <= 4 vertices, object reused under another bound
     chk.mc("EECC", "MC_EECC_live.cfg", required=req)
     chk.mc("EECC", "MC_EECC_pinned.cfg", expect_violation="C09_Disjoint")
     rng = _r.Random(chk.seed)
@@ -114,6 +128,14 @@ def run(chk):
                     traces.append(execute({"edges": es, "m0": m0, "rng": ("seed", 1)}))
     chk.exhaustive["every tie-break sequence (<= 64 per input) for every graph without isolated vertices on <= 5 vertices, m0 in 2..5"
                    + ("; every 11th graph on 6 vertices" if thorough else "")] = und == 0
+    # (i') one object used twice: a cover (or just the clique list) under another bound first
+    for n in (4, 5):
+        for gi, es in enumerate(all_graphs(n)):
+            if gi % (7 if n == 5 else 2):
+                continue
+            for m0a, m0b in ((4, 2), (3, 2), (2, 3), (5, 3), (4, 3)):
+                traces.append(execute({"edges": es, "m0": m0b, "rng": ("seed", rng.randrange(1 << 30)),
+                                       "pre": {"m0": m0a, "seed": rng.randrange(1 << 30), "only_list": (gi + m0a) % 2 == 0}}))
     # (ii) the repo's fixture, overlapping K5/K6 unions, G(n,p)
     fixture = [(1, 2), (1, 14), (2, 4), (2, 13), (2, 14), (3, 4), (3, 5), (4, 5), (4, 13), (4, 14), (6, 7), (6, 13), (7, 8), (7, 13),
                (8, 9), (8, 13), (9, 10), (9, 11), (9, 13), (10, 11), (11, 12), (12, 13), (13, 14)]
